@@ -137,7 +137,20 @@ func (s *c19Subject) reusedCollection(k int, want string) *evid.Fail {
 			if len(bs) > 1 {
 				pc.Remove(0)
 				pc.Add(variables.NewVariable(bs[len(bs)-1].Name, bs[len(bs)-1].V.toVariant()))
-				run("after its first entry was removed and added again at the end")
+				if !run("after its first entry was removed and added again at the end") {
+					return
+				}
+			}
+			// later entries under the same names in another letter case (other values): the first one added wins, every time
+			pc.Clear()
+			for _, b := range bs {
+				pc.Add(variables.NewVariable(b.Name, b.V.toVariant()))
+			}
+			for i, b := range bs {
+				pc.Add(variables.NewVariable(strings.ToUpper(b.Name), bs[(i+1)%len(bs)].V.toVariant()))
+			}
+			if run("holding later entries of the same names in upper case") {
+				run("holding later entries of the same names in upper case, evaluated again")
 			}
 			return
 		}
